@@ -31,6 +31,7 @@ type SolverStats struct {
 	Unknown    int
 	Errors     int
 	Restarts   int
+	OneShots   int
 	SolverTime time.Duration
 	MaxQuery   time.Duration
 }
